@@ -14,7 +14,7 @@ TWIN_METHODS = {
 # one named construct each, with the reason (DESIGN §4 C03)
 ASSUME = {
     "<[T; N] as pest_typed::typed_node::TypedNode<'i, R>>::try_parse_partial_with": (
-        {"TryInto::try_into": "Ok"},
+        {"TryInto::try_into": ("Ok", "continue", "some", "match")},
         "Vec::try_into::<[T; N]>() cannot fail: the loop pushed exactly N items (the source says 'Actually impossible')"),
 }
 
